@@ -213,6 +213,22 @@ fn part1(cfg: &P1Cfg, track: bool) -> Out1 {
                 ));
             }
         }
+        // a second put that was accepted ("it supersedes the in-flight write", or it came after
+        // the first completed) and reports Ok must have gone out: some storer received its item
+        if r2 == "Ok" && cfg.rel != 0 {
+            let want_v: &[u8] = match cfg.rel {
+                1 => b"older",
+                2 => b"other",
+                _ => b"newer",
+            };
+            let received = net.eps.iter().filter(|e| e.puts.iter().any(|p| p.raw.arg_bytes("v") == Some(want_v))).count();
+            if received == 0 {
+                problems.push((
+                    format!("accepted-put-never-sent/{}/{}/{}", if in_flight { "in-flight" } else { "after-completion" }, REL[cfg.rel], CAS[cfg.cas]),
+                    format!("second put ({}, {}) handled {} returned Ok, but no storer ever received its item", REL[cfg.rel], CAS[cfg.cas], if in_flight { "while the first was in flight" } else { "after the first completed" }),
+                ));
+            }
+        }
         // the first call's outcome: Ok unless it was superseded and the network failed
         if r1 != "Ok" {
             problems.push((format!("first-put-result/{}/{}", REL[cfg.rel], CAS[cfg.cas]), format!("first put returned {r1} although every storer acknowledges")));
@@ -238,7 +254,7 @@ fn permutation(n: usize, mut k: usize) -> Vec<usize> {
     out
 }
 
-fn part2(kind: usize, replies: &[u8], order: usize, sync: bool) -> (String, u64, Vec<(String, String)>) {
+fn part2(kind: usize, replies: &[u8], order: usize, sync: bool, copies: usize) -> (String, u64, Vec<(String, String)>) {
     let mut w = World::new(Chooser::default_run());
     let n = replies.len();
     let mitem = item(5, b"split", None);
@@ -270,7 +286,10 @@ fn part2(kind: usize, replies: &[u8], order: usize, sync: bool) -> (String, u64,
                     if let Some(bytes) = net.honest_reply(i, &q, dgram.from, w.now) {
                         let lat = if is_put { (10 + 40 * rank[i] as u64) * MS } else { DEFAULT_LATENCY };
                         let from = net.eps[i].addr;
-                        w.send_raw_with_latency(from, dgram.from, bytes, lat);
+                        // the network may deliver a storer's reply more than once: one vote all the same
+                        for c in 0..(if is_put { copies } else { 1 }) {
+                            w.send_raw_with_latency(from, dgram.from, bytes.clone(), lat + c as u64 * 3 * MS);
+                        }
                     }
                 }
             }
@@ -298,7 +317,7 @@ fn part2(kind: usize, replies: &[u8], order: usize, sync: bool) -> (String, u64,
     let acks = replies.iter().filter(|r| **r == 0).count();
     let n301 = replies.iter().filter(|r| **r == 1).count();
     let n302 = replies.iter().filter(|r| **r == 2).count();
-    let split = format!("ack{acks}-e301x{n301}-e302x{n302}");
+    let split = format!("ack{acks}-e301x{n301}-e302x{n302}{}", if copies > 1 { format!("-each-reply-x{copies}") } else { String::new() });
     if r.starts_with("PANIC") {
         problems.push((format!("typed-api-panicked/{}", KINDS[kind]), format!("{} with storers answering {split}: the API call panicked in the caller: {r}", KINDS[kind])));
     } else if r == "PENDING" {
@@ -382,16 +401,16 @@ fn run(tier: Tier, shard: usize, nshards: usize, _seed: u64) -> Partial {
             for c in 0..3usize.pow(n as u32) {
                 let replies: Vec<u8> = (0..n).map(|i| ((c / 3usize.pow(i as u32)) % 3) as u8).collect();
                 let orders: usize = if kind == 0 { (1..=n).product() } else { 1 };
-                for (order, sync) in (0..orders).flat_map(|o| [(o, false), (o, true)]) {
+                for (order, sync, copies) in (0..orders).flat_map(|o| [(o, false, 1), (o, true, 1), (o, false, 2), (o, false, 3)]) {
                     if !mine() {
                         continue;
                     }
-                    let (r, steps, problems) = part2(kind, &replies, order, sync);
+                    let (r, steps, problems) = part2(kind, &replies, order, sync, copies);
                     out.add("executions", 1);
                     out.add("transitions", steps);
                     out.outcomes.insert(format!("split:{}:{replies:?}->{r}", KINDS[kind]));
                     for (k, d) in problems {
-                        out.violation(format!("{k}{}", if sync { "/blocking-api" } else { "" }), format!("{}{d}", if sync { "[blocking Dht API] " } else { "" }), json!({"part": 2, "kind": kind, "replies": replies, "order": order, "sync": sync}));
+                        out.violation(format!("{k}{}", if sync { "/blocking-api" } else { "" }), format!("{}{d}", if sync { "[blocking Dht API] " } else { "" }), json!({"part": 2, "kind": kind, "replies": replies, "order": order, "sync": sync, "copies": copies}));
                     }
                 }
             }
@@ -411,7 +430,8 @@ fn replay(v: &Value) -> Result<Option<Violation>, String> {
         let order = v.get("order").and_then(|x| x.as_u64()).ok_or("order")? as usize;
         let replies: Vec<u8> = v.get("replies").and_then(|x| x.as_array()).ok_or("replies")?.iter().filter_map(|x| x.as_u64().map(|x| x as u8)).collect();
         let sync = v.get("sync").and_then(|x| x.as_bool()).unwrap_or(false);
-        for (k, d) in part2(kind, &replies, order, sync).2 {
+        let copies = v.get("copies").and_then(|x| x.as_u64()).unwrap_or(1) as usize;
+        for (k, d) in part2(kind, &replies, order, sync, copies).2 {
             out.violation(format!("{k}{}", if sync { "/blocking-api" } else { "" }), d, v.clone());
         }
     } else {
